@@ -1,3 +1,4 @@
 //! Adapter between the harness and the crate under test.
 pub use vcommon;
 pub mod states;
+pub mod registries;
